@@ -219,6 +219,14 @@ def monitor(case, res, shared):
         gdown = [i for i, o in enumerate(n[3]) if o == 'down']
         if gdown != sorted(cfg['blocked_gpus']):
             return ('blocked-gpus-not-marked', '%s vs %s' % (gdown, cfg['blocked_gpus']))
+    # without a configured node size the slot count of a host is the number of its lines
+    if case['kind'] in ('torque', 'ccm', 'lsf') and not cfg['cpn']:
+        mult = cfg['smt'] if case['kind'] == 'lsf' else 1
+        for n in nl + al + sl:
+            lines = sum(1 for l in case['lines'] if isinstance(l, dict) and l['id'] == n[0])
+            if len(n[2]) != lines * mult:
+                return ('node-core-count-differs-from-node-file',
+                        'host id %s has %d lines in the node file but %d cores' % (n[0], lines, len(n[2])))
     if shared is False:
         return ('registry-roundtrip-differs', 'RMInfo(dict) != RMInfo')
     return None
